@@ -72,10 +72,16 @@ def sampler_task(task):
                 import traceback
                 part.inconc("harness error: " + traceback.format_exc()[-600:])
             else:
-                part.violation("%s in %s: sampler move %s did not return a tree" % (et, where, case.get("move")),
-                               dict(case, msg=msg))
+                if task.get("own", "C07") == "C07":
+                    part.violation("%s in %s: sampler move %s did not return a tree" % (et, where, case.get("move")),
+                                   dict(case, msg=msg))
+                else:
+                    part.count("exceptions_owned_by_C07")
         for fl in sampler_mon.FAILURES:
-            part.violation(fl["what"], dict(case, where=fl["where"], detail=fl["detail"]))
+            if fl["prop"] == task.get("own", "C07"):
+                part.violation(fl["what"], dict(case, where=fl["where"], detail=fl["detail"]))
+            else:
+                part.count("failures_owned_by_" + fl["prop"])
         for k, v in sampler_mon.COUNTS.items():
             part.count(k, v)
         if len(part.samples) < 2:
@@ -126,9 +132,15 @@ def chain_task(task):
                 import traceback
                 part.inconc("harness error: " + traceback.format_exc()[-600:])
             else:
-                part.violation("%s in %s during an instrumented chain run" % (et, where), dict(case, msg=msg))
+                if task.get("own", "C07") == "C07":
+                    part.violation("%s in %s during an instrumented chain run" % (et, where), dict(case, msg=msg))
+                else:
+                    part.count("exceptions_owned_by_C07")
         for fl in sampler_mon.FAILURES:
-            part.violation(fl["what"], dict(case, where=fl["where"], detail=fl["detail"]))
+            if fl["prop"] == task.get("own", "C07"):
+                part.violation(fl["what"], dict(case, where=fl["where"], detail=fl["detail"]))
+            else:
+                part.count("failures_owned_by_" + fl["prop"])
         for k, v in sampler_mon.COUNTS.items():
             part.count(k, v)
     return None, part
